@@ -113,6 +113,10 @@ each led to (all re-run against the final checks, see the table):
   with a silent peer under COMMTIMEOUT.
 * By their builders for the rest (C02 falsy registered objects and part-filled member caches, C03, C04, C09, C10, C11, C14,
   C15 lock released on every path, C16, C19, C20).
+Defects that belong to another property than the one their author was given are tried against that property's check too
+(records tagged `r5x`): the `single`-instance creation race reachable through a hostile call (written for C05) is caught by
+C09's check with a failing input; the over-reading chunk loop of `receive_data` (written for C03) by C17's and C06's.
+
 A check that did not come back on a seeded tree (C07, first trial) counts as missed; the runner's deadline is the last resort.
 
 ''' + seed_tab
